@@ -43,6 +43,7 @@
 #include <poll.h>
 #include <set>
 #include <string>
+#include <sys/resource.h>
 #include <sys/stat.h>
 #include <sys/wait.h>
 #include <thread>
@@ -233,6 +234,7 @@ struct Run {
   std::vector<std::string> baseStorage;
   std::vector<const char*> baseEnv;
   std::vector<std::unique_ptr<Launch>> launches;
+  std::vector<int> fillers;  // descriptors opened to exhaust the table
   std::vector<std::unique_ptr<Desc>> descs;
   double launchWatchdog = 8.0;
 
@@ -517,12 +519,26 @@ struct Run {
         else if (sc.variant == "empty-argv") L = &add("p", {});
         else if (sc.variant == "missing-working-directory") { L = &addChild("p", {"touch", dir + "/marker-wd"}); L->workingDir = dir + "/no/such/dir"; L->marker = dir + "/marker-wd"; }
         else if (sc.variant == "not-executable") { std::string f = dir + "/plainfile"; int fd = open(f.c_str(), O_WRONLY | O_CREAT, 0644); if (fd >= 0) close(fd); L = &add("p", {f}); }
+        else if (sc.variant == "no-fds-for-output-pipe" || sc.variant == "no-fds-for-control-pipe") {
+          // the process has run out of file descriptors when the child's pipes are created: 0 free -> the output pipe
+          // fails, 2 free -> the output pipe succeeds and the control pipe fails
+          L = &addChild("p", {"touch", dir + "/marker-fd"});
+          L->marker = dir + "/marker-fd";
+          struct rlimit rl;
+          getrlimit(RLIMIT_NOFILE, &rl);
+          rl.rlim_cur = 256;
+          setrlimit(RLIMIT_NOFILE, &rl);
+          for (;;) { int fd = open("/dev/null", O_RDONLY); if (fd < 0) break; fillers.push_back(fd); }
+          int keepFree = sc.variant == "no-fds-for-output-pipe" ? 0 : 2;
+          for (int i = 0; i < keepFree && !fillers.empty(); ++i) { close(fillers.back()); fillers.pop_back(); }
+        }
         else { L = &add("p", {dir}); }  // a directory as the binary
         L->expStatus = ProcessStatus::Failed; L->expSpawned = false; L->expSpawnError = true;
         L->expExact = true; L->expText = ""; L->sizeClass = "spawn-error";
       }
       submit(*L);
       if (!waitCompletion(*L)) hang(*L, "waiting for the only launch");
+      if (!fillers.empty()) { usleep(50000); for (int fd : fillers) close(fd); fillers.clear(); }  // (a second completion would arrive at once)
       if (sc.family == "release" || sc.family == "release-bad") usleep(20000);  // see assumptions: the detached waiter thread touches the queue after the callback
       destroyQueue();
       childAccounting();
@@ -709,6 +725,8 @@ std::vector<Scenario> buildTable() {
       add(mk("cwd", "simple", "", {}, ctl, "working-directory"));
       for (const char* v : {"missing-binary-absolute", "missing-binary-relative", "empty-argv", "missing-working-directory", "not-executable", "directory-as-binary"})
         add(mk("spawn-error", "simple", v, {}, ctl, std::string("spawn-error:") + v));
+      add(mk("spawn-error", "simple", "no-fds-for-output-pipe", {}, ctl, "spawn-error:no-fds-for-output-pipe"));
+      if (ctl) add(mk("spawn-error", "simple", "no-fds-for-control-pipe", {}, ctl, "spawn-error:no-fds-for-control-pipe"));
       add(mk("concurrent", "concurrent", "", {}, ctl, "concurrent-4"));
     }
     for (const char* inh : {"inherit", "noinherit"})
